@@ -13,10 +13,12 @@ def flipcase(s):
     return "".join(c.lower() if c.isupper() else c.upper() for c in s)
 
 
-def gen_pattern(r, names):
+def gen_pattern(r, names, intended=None):
     """a pattern from the modelled RE2 fragment, built from the names it is meant to match"""
     n = r.choice(names)
     m = r.choice(names)
+    if intended is not None:
+        intended += [n, m]
     kind = r.weighted([("lit", 22), ("alt", 18), ("prefix", 8), ("suffix", 6), ("class", 8), ("negclass", 3),
                        ("digit", 6), ("digits", 4), ("opt", 5), ("group", 6), ("anchored", 5), ("anch_l", 4),
                        ("anch_r", 4), ("flag", 4), ("case", 6), ("dot", 4), ("alt3", 4), ("altanch", 4), ("esc", 2)])
@@ -78,17 +80,23 @@ def gen_ops(r):
     return out
 
 
+INTENDED = {}
+
+
 def gen_config(r):
+    INTENDED.clear()
     nclients = r.weighted([(1, 3), (2, 4), (3, 2)])
     clients = ["client%d" % (i + 1) for i in range(nclients)]
     cfg = []
     bad = False
     for c in clients:
         for _ in range(r.weighted([(1, 3), (2, 4), (3, 3), (4, 2), (5, 1)])):
-            w = gen_pattern(r, WNAMES)
+            wi, ai = [], []
+            w = gen_pattern(r, WNAMES, wi)
+            INTENDED.setdefault(c, []).append((wi, ai))
             k = r.weighted([("full", 12), ("walletonly", 3), ("trailing", 2)])
             if k == "full":
-                path = w + "/" + gen_pattern(r, ANAMES)
+                path = w + "/" + gen_pattern(r, ANAMES, ai)
             elif k == "walletonly":
                 path = w
             else:
@@ -137,6 +145,14 @@ def gen_probes(r, clients, cfg, n):
         c = r.weighted([(r.choice(clients), 10), ("nobody", 1), ("", 1), (r.choice(clients).upper(), 1)])
         w = r.choice(ws)
         a = r.choice(as_)
+        if c in INTENDED and r.chance(0.7):
+            wi, ai = r.choice(INTENDED[c])
+            w = r.choice(wi)
+            a = r.choice(ai) if ai else r.choice(ANAMES)
+            if r.chance(0.3):
+                w = r.choice([w + "0", "x" + w, flipcase(w), w.lower(), w[:-1]])
+            if r.chance(0.3):
+                a = r.choice([a + "0", "x" + a, flipcase(a), a.upper(), a[:-1], ""])
         acct = r.weighted([(w + "/" + a, 12), (w, 1), ("/" + a, 1), ("", 1)]) if True else ""
         op = r.choice(OPS) if not r.chance(0.05) else r.choice(["Nope", "", "all", "None"])
         out.append("check %s %s %s" % (hx(c), hx(acct), hx(op)))
